@@ -311,11 +311,16 @@ func c09PoolText(p *c09Pool) string {
 	return sb.String()
 }
 
+// c09Abutted counts carriers whose two inserts are closed and opened by overlapping sites.
+var c09Abutted int
+
 // c09Render lays every fragment of the pool out as an insert between a forward and a backward site.
 func c09Render(r *rand.Rand, p *c09Pool, frags []oracle.LigFragment) ([]clone.Part, bool) {
 	g := p.enz.geo
 	rcSite := oracle.MustRevComp(g.Site)
 	var parts []clone.Part
+	abutted := 0
+	defer func() { c09Abutted += abutted }()
 	cassette := func(f oracle.LigFragment) string {
 		return g.Site + randString(r, "ACGT", g.Skip) + f.Fwd + f.Seq + f.Rev + randString(r, "ACGT", g.Skip) + rcSite
 	}
@@ -331,9 +336,18 @@ func c09Render(r *rand.Rand, p *c09Pool, frags []oracle.LigFragment) ([]clone.Pa
 			var sb strings.Builder
 			sb.WriteString(randString(r, "ACGT", r.Intn(30)))
 			want = want[:0]
+			abut := n == 2 && len(g.Site) >= 2 && rcSite[len(rcSite)-2:] == g.Site[:2] && r.Intn(3) == 0
 			for j := 0; j < n; j++ {
-				sb.WriteString(cassette(frags[i+j]))
-				sb.WriteString(randString(r, "ACGT", r.Intn(30)))
+				c := cassette(frags[i+j])
+				if abut && j == 1 {
+					// a compact two-insert carrier: the site that closes the first insert and the site that opens the
+					// second share their two outer bases (BtgZI: CATCGC / GCGATG -> CATCGCGATG)
+					c = c[2:]
+				}
+				sb.WriteString(c)
+				if !(abut && j == 0) {
+					sb.WriteString(randString(r, "ACGT", r.Intn(30)))
+				}
 				want = append(want, frags[i+j].Fwd+"|"+frags[i+j].Seq+"|"+frags[i+j].Rev)
 			}
 			s := sb.String()
@@ -344,8 +358,14 @@ func c09Render(r *rand.Rand, p *c09Pool, frags []oracle.LigFragment) ([]clone.Pa
 			}
 			model, st := oracle.Digest(s, circ, g)
 			sort.Strings(want)
+			if abut {
+				st.SitesOverlap = false // intended here: the two sites overlap in their outer bases only, the cuts are unaffected
+			}
 			if !st.OK() || !sameStrings(c10Keys(model), want) || len(oracle.FindSites(s, circ, g)) != 2*n {
 				continue
+			}
+			if abut {
+				abutted++
 			}
 			part = clone.Part{Sequence: randCase(r, s, []float64{0, 0, 0.5, 1}[r.Intn(4)]), Circular: circ}
 			ok = true
@@ -779,6 +799,8 @@ func runC09(w *mon.W) {
 			}
 		}
 		w.Add("pools", 1)
+		w.Add("carriers_with_abutting_sites", int64(c09Abutted))
+		c09Abutted = 0
 		w.Add("pools_"+p.kind, 1)
 		w.Add("rings_expected", int64(nExpected))
 		w.Add("fragments_supplied_flipped", int64(p.flipped))
